@@ -1,5 +1,6 @@
 import FontVerif.DriverMain
 import FontVerif.Drv.C01
 import FontVerif.Drv.C01Iter
+import FontVerif.Drv.C01Hand
 
-def main : IO Unit := FontVerif.driverMain [FontVerif.Drv.C01.handle, FontVerif.Drv.C01Iter.handle]
+def main : IO Unit := FontVerif.driverMain [FontVerif.Drv.C01.handle, FontVerif.Drv.C01Iter.handle, FontVerif.Drv.C01Hand.handle]
